@@ -47,3 +47,29 @@ Theorem C09_model_exact : forall U P evs st,
   (forall s, In (CDeps s) (e_calls st) <-> In (Some s) (requested evs)) /\
   (forall n, In (CCands n) (e_calls st) <-> exists so, In so (requested evs) /\ In n (mentioned U P so)).
 Proof. exact enc_exact. Qed.
+
+(* the second sentence of the property, for every conflict-free (greedy_ok)
+   problem without soft requirements, provider without hints, fresh solver,
+   completion order and legal run of the CDCL machine that announces a solution:
+   the solution is the greedy selection G, get_dependencies is called for
+   exactly the members of G and get_candidates for exactly the names mentioned
+   by the root and by members of G -- lower-ranked candidates are never fetched.
+   All hypotheses are evaluated on every run of the greedy streams (trace
+   checker: facts_ok, learnts_ok, run_events, check_sat; encoder tie:
+   enc_run, req_true_ok, enc_final_ok). *)
+From Resolvo Require Import Async.EncoderGreedy.
+
+Theorem C09_conflict_free_exact : forall U P, WF U -> forall db G,
+  pr_soft P = [] -> greedy_ok U P G -> facts_ok U P db = true -> learnts_ok [] db = true ->
+  forall evs st ents sol,
+  nohints U ->
+  enc_run U P (estate0 cache0) [] [] evs = Some (st, []) ->
+  req_true_ok [] evs = true ->
+  run_events (pr_soft P) db (trail_events evs) [] = Some ents ->
+  check_sat U P db (tlits ents) sol = true ->
+  enc_final_ok U st (sel_of (tlits ents)) (exempt P (sel_of (tlits ents))) = true ->
+  same_set sol G /\
+  (forall s, In (CDeps s) (e_calls st) <-> In s G) /\
+  (forall n, In (CCands n) (e_calls st) <->
+     exists so, (so = None \/ exists s, so = Some s /\ In s G) /\ In n (mentioned U P so)).
+Proof. exact conflict_free_exact. Qed.
